@@ -174,6 +174,15 @@ def main():
                     ok = should_raise or b[0] >= b[2] or b[1] >= min(b[3], 4000.0)   # crowsetta's own validators reject empty boxes
                 if not ok:
                     s.fail(f"bbox_from_annotation:{kind}:cast={cast}:rtg={rtg}", f"export of {kind} (cast={cast}, raise_on_time_geometries={rtg}) wrong")
+    # ---------------- the Nyquist cap on exported boxes: odd and even samplerates, upper frequencies just below / at / above samplerate / 2
+    for sr in (8000, 8001, 22025, 44101):
+        rec_n = data.Recording(path="a.wav", duration=100, channels=1, samplerate=sr)
+        for high in (sr / 2 - 0.75, sr / 2 - 0.25, sr / 2, sr / 2 + 0.25, sr / 2 + 1000.0):
+            s.case(None, ("nyquist", sr, high))
+            ann_n = data.SoundEventAnnotation(sound_event=data.SoundEvent(recording=rec_n, geometry=data.BoundingBox(coordinates=[1.0, 100.0, 2.0, high])), tags=[T("species", "A")])
+            bx = bbox_from_annotation(ann_n, value_only=True)
+            if bx.high_freq != min(high, sr / 2) or (bx.onset, bx.offset, bx.low_freq) != (1.0, 2.0, 100.0):
+                s.fail(f"bbox_nyquist:sr={sr}", f"box with upper frequency {high} on a {sr} Hz recording exported with high_freq {bx.high_freq}, expected min(high, samplerate / 2) = {min(high, sr / 2)}")
     # ---------------- the clip-level wrapper: (cast_geometry, ignore_errors) x format on a clip with matching and non-matching geometries
     from soundevent.io.crowsetta.annotation import annotation_from_clip_annotation
     clip = data.Clip(recording=rec, start_time=0, end_time=10)
